@@ -33,8 +33,12 @@ import re
 
 from engine import facts as F
 from engine import load
+import os
+
 from engine import orders as O
+from engine import plumbing as PL
 from engine import poly as P
+from engine import witness as W
 from engine import sx
 from engine import terms as T
 from engine.poly import Poly
@@ -496,7 +500,13 @@ def rule_advance(rep, db, cfg):
             if E != (IT - FIRST) + n:
                 return "the dividend is %s, not (offset of the current position) + n" % E.show()
             D = Poly.atom(d)
-            for sign, dv in (("negative", -1), ("zero", 0), ("positive", 1)):
+            names = {"d": D, "e": E, "n": n}
+            # joint sign regions of (n, offset + n, truncated remainder): offset >= 0, so e < 0 needs n < 0 and n >= 0 gives e >= 0;
+            # the remainder is 0 or has the sign of the dividend
+            regions = [(sn, se, sd) for se in (-1, 0, 1) for sn in (-1, 0, 1) for sd in (-1, 0, 1)
+                       if (sd == 0 or sd == se) and not (se < 0 and sn >= 0) and not (sn > 0 and se <= 0) and not (se == 0 and sn > 0)]
+            for sn, se, sd in regions:
+                signs = {"d": sd, "e": se, "n": sn}
                 chosen = []
                 for p, ce in evals:
                     ok = True
@@ -504,16 +514,15 @@ def rule_advance(rep, db, cfg):
                         a = strip(atom)
                         if not (isinstance(a, tuple) and a[0] == "cmp"):
                             raise P.Unresolved("decision %s" % sx.show(atom))
-                        l, r = lin(a[2], ce.ev_polys()), lin(a[3], ce.ev_polys())
-                        diff = l - r
-                        # the comparison must be between the remainder and a constant: decided by the sign region
-                        if set(diff.t) - {(d,), ()} or diff.t.get((d,), 0) not in (1, -1):
-                            raise P.Unresolved("comparison %s is not between the remainder and a constant" % sx.show(atom))
-                        c = diff.t.get((), 0)
-                        coef = diff.t[(d,)]
-                        if c != 0:
-                            raise P.Unresolved("the remainder is compared with a non-zero constant")
-                        x = coef * dv
+                        diff = lin(a[2], ce.ev_polys()) - lin(a[3], ce.ev_polys())
+                        x = None
+                        for nm, q in names.items():
+                            if diff == q:
+                                x = signs[nm]
+                            elif diff == -q:
+                                x = -signs[nm]
+                        if x is None:
+                            raise P.Unresolved("comparison %s is not a sign test of n, offset + n or the remainder" % sx.show(atom))
                         val = {"<": x < 0, "<=": x <= 0, ">": x > 0, ">=": x >= 0, "==": x == 0, "!=": x != 0}[a[1]]
                         if val != truth:
                             ok = False
@@ -521,12 +530,14 @@ def rule_advance(rep, db, cfg):
                     if ok:
                         chosen.append(ce)
                 if len(chosen) != 1:
-                    raise Broken("%d paths apply to a %s remainder" % (len(chosen), sign))
+                    raise Broken("%d paths apply to one sign region" % len(chosen))
                 got = chosen[0].state["this.it"]
-                want = FIRST + D + (S if dv < 0 else 0)
+                want = FIRST + D + (S if sd < 0 else 0)
                 if got != want:
-                    return "for a %s remainder d the new position is %s, expected %s" % (
-                        sign, got.show(lambda a: "d" if a[0] == "mod" else a[0]), want.show(lambda a: "d" if a[0] == "mod" else a[0]))
+                    sg = {-1: "negative", 0: "zero", 1: "positive"}
+                    shown = lambda a: "d" if a[0] == "mod" else a[0]
+                    return "for n %s, offset + n %s and remainder d %s the new position is %s, expected %s" % (
+                        sg[sn], sg[se], sg[sd], got.show(shown), want.show(shown))
             return None
         guarded(rep, "ADVANCE", "advance|" + type_tag(fn), fn, f)
 
@@ -605,6 +616,46 @@ def rule_facade(rep, db):
             ok = e == [("distance_to", [a, b])] and isinstance(v, tuple) and v[0] == "cmp" and v[1] == ">" and strip(v[2])[0] == "ev" and v[3] == ("k", "0")
             return None if ok else "a < b is not a.distance_to(b) > 0: %s" % sx.show(v)
         guarded(rep, "FACADE", "operator<|" + facade_tag(fn), fn, f)
+    # >, <=, >= written in terms of the other relational operators: truth table over the three orders of (left, right)
+    meaning = {"<": lambda o: o < 0, ">": lambda o: o > 0, "<=": lambda o: o <= 0, ">=": lambda o: o >= 0, "==": lambda o: o == 0, "!=": lambda o: o != 0}
+    for opn in (">", "<=", ">="):
+        for fn in db.fns("fcppt::iterator::operator" + opn):
+            if len(fn["params"]) != 2:
+                continue
+
+            def f(fn=fn, opn=opn):
+                cfg2 = sx.Config(inline_prefixes=(), ref_writes=True)
+                v, ev = single(db, cfg2, fn)
+                a, b = fn["params"][0]["name"], fn["params"][1]["name"]
+
+                def value(t, order):
+                    t0 = t
+                    while isinstance(t0, tuple) and t0 and t0[0] in ("deref", "addr"):
+                        t0 = t0[1]
+                    if isinstance(t0, tuple) and t0 and t0[0] == "not":
+                        return not value(t0[1], order)
+                    if isinstance(t0, tuple) and t0 and t0[0] == "ev":
+                        name, args, loc = ev[t0[1] - 1]
+                        m = re.search(r"operator(<=|>=|<|>|==|!=)$", name.split("<fcppt")[0].split("<(")[0].rstrip())
+                        if m is None:
+                            m = re.search(r"::operator(<=|>=|==|!=|<|>)", name)
+                        if m is None or len(args) != 2:
+                            raise P.Unresolved("call %s" % name)
+                        nm = [name_of(x) for x in args]
+                        if nm == [a, b]:
+                            o = order
+                        elif nm == [b, a]:
+                            o = -order
+                        else:
+                            raise P.Unresolved("operands %s" % nm)
+                        return meaning[m.group(1)](o)
+                    raise P.Unresolved("result %s" % sx.show(t))
+                for order, txt in ((-1, "left < right"), (0, "left == right"), (1, "left > right")):
+                    got = value(v, order)
+                    if got != meaning[opn](order):
+                        return "for %s, operator%s yields %s" % (txt, opn, got)
+                return None
+            guarded(rep, "FACADE", "operator%s|%s" % (opn, facade_tag(fn)), fn, f)
     # post-increment / post-decrement return a copy made before the step (statement order; values are aliases in engine S)
     for opn in ("operator++", "operator--"):
         for fn in db.fns("fcppt::iterator::base::" + opn):
@@ -702,7 +753,11 @@ def rule_iter(rep, db, cfg):
             b, e = strip(fields.get("begin_")), strip(fields.get("end_"))
             ok = isinstance(b, tuple) and b[0] == "ev" and isinstance(e, tuple) and e[0] == "ev" and \
                 names[b[1] - 1] == ("begin", [a]) and names[e[1] - 1] == ("end", [a])
-            return None if ok else "adapt_range builds range{%s, %s}" % (sx.show(fields.get("begin_")), sx.show(fields.get("end_")))
+            if not ok:
+                return "adapt_range builds range{%s, %s}" % (sx.show(fields.get("begin_")), sx.show(fields.get("end_")))
+            if fn["params"][0].get("ref") not in ("lref", "clref"):
+                return "adapt_range takes its range by value: the returned iterators point into a copy that no longer exists"
+            return None
         guarded(rep, "ITER", "adapt_range|" + type_tag(fn)[:30], fn, f)
     for fn in db.fns("fcppt::range::size"):
         def f(fn=fn):
@@ -714,8 +769,34 @@ def rule_iter(rep, db, cfg):
         guarded(rep, "ITER", "range::size|" + type_tag(fn)[:30], fn, f)
 
 
+def rule_witness(rep):
+    rep.rule("W", "must-compile witnesses: integer ranges over plain, narrow and strong-typedef integers, enum ranges", floor=7)
+    cd = PL.cache_dir()
+    path = os.path.join(PL.VERIF, "witness", "c18_ranges.cpp")
+    wits, fails = W.run_witness_file(cd, path)
+    if None in fails:
+        rep.broken("witness TU c18_ranges.cpp has unattributed diagnostics: " + fails[None][0]["msg"])
+    for (wid, text, a, z) in wits:
+        site = "verif:witness/c18_ranges.cpp:%d" % a
+        if wid in fails:
+            f = fails[wid]
+            lib = next((x["lib_site"] for x in f if x["lib_site"]), None)
+            rep.fail("W", wid, lib or site, text, why="does not compile: " + f[0]["msg"], detail={"chain": f[0]["chain"][:5]})
+        else:
+            rep.ok("W", wid, site, text, how="compiles")
+
+
 def main(rep, tier, only):
-    db = load.load(tier, lib=False, drivers=["drv_ranges"])
+    if only in (None, "W"):
+        rule_witness(rep)
+    try:
+        db = load.load(tier, lib=False, drivers=["drv_ranges"])
+    except PL.AnalysisBroken as e:
+        if rep.viol:
+            # the driver instantiates the same members the failing witnesses name; the path rules cannot run on this tree
+            rep.note("path rules skipped: %s" % e)
+            return
+        raise
     rep.extra.update(db.stats())
     cfg = config()
     if only in (None, "INT"):
